@@ -39,3 +39,12 @@ chk("C20","exploration",
  "All ordered-collection pages with item sequences of length 0..5 (thorough 6) over a 6-element alphabet are served through GetInbox and GetOutbox, and values of every vocabulary type, a Tombstone, a missing value and a failing Get through the handler, at 25 clock instants in 5 zones; body, de-duplication, Content-Type, Date and Digest (recomputed over the bytes written) and status are compared with a reference computed from the description.",
  "Trusted: counting writer; the decoder/encoder round trip is exact for these documents (C01).",
  "bounded-exhaustive enumeration of page contents against a first-occurrence reference model","DESIGN.md 3 C20")
+
+chk("C04","exploration",
+ "Each handled inbox activity type with every sequence of 1..2 (thorough 3) objects / targets / actors from per-type alphabets, OnFollow modes, Follow object variants and 4 callback configurations (about 8,000 requests) runs on the real handlers; a reference model of the documented default effect is applied to the initial state and diffed against the real final state, expected automatic Accept/Reject deliveries and callback order are compared; plus single faults inside the default effect (no callback / response after a failed step).",
+ "Trusted: the reference model (written from the documentation); order among several followers not asserted; partial application before an error follows list order.",
+ "bounded-exhaustive input enumeration against a reference model (differential state comparison)","DESIGN.md 3 C04")
+chk("C06","exploration",
+ "Update/Delete with every sequence of 1..2 (3) object hosts that contains a host that must be refused, Accept against 7 stored-Follow situations x embedded/IRI x 6 actor sets, Undo with 8 actor-set relations, and every sequence of 1..3 activity actors (IRI/embedded) x blocked subsets run on the real handlers; refusal must leave the state unchanged beyond the inbox entry, Blocked must receive exactly the actors' own ids before any side effect.",
+ "Trusted: reference expectations per family; hosts differing only in case or explicit default port are not asserted.",
+ "bounded-exhaustive input enumeration against per-family authority oracles","DESIGN.md 3 C06")
